@@ -17,6 +17,17 @@ re-filled source object B before its pack, object decoded from B before its re-e
 the verdict themselves (an observer that raises is only counted); the oracle below is unchanged and is applied to
 whatever the observed objects encode to, plus (b') below.
 
+Decoder entry variants (round 4): `_from_msg` has three call forms and all are generated - `_from_msg(msg)` (STAT / LSTAT / FSTAT
+replies, server-side decoding), `_from_msg(msg, filename)` and `_from_msg(msg, filename, longname)`, the form every directory
+listing uses (SFTPClient.listdir_attr / listdir_iter: one CMD_NAME entry = string filename, string longname, attribute block).  For
+the two entry forms the packed block is embedded in an entry stream `string filename [string longname] <block> <sentinel bytes>` and
+decoded the way the client does (get_text, get_text, _from_msg(msg, filename, longname)).  The longname is generated independently
+of the block: the `ls -l` line paramiko's own server sends for that attribute set (str() of a separate object), an `ls -l` style
+line with generated NUMERIC owner / group / size columns (values unrelated to the block), one with owner / group NAMES, free text,
+or the empty string.  The oracle is the same - the decoded FIELDS come from the attribute block only: whatever the longname says,
+fields absent from the block stay None and _flags are the block's flags - plus: the decoder consumed exactly the block (the
+sentinel is what is left of the message).
+
 Oracle, per packed set:
   (a) the bytes parse with the independent reader (vlib.refssh) as
       uint32 flags | [uint64 size] | [uint32 uid, uint32 gid] | [uint32 mode] |
@@ -27,7 +38,8 @@ Oracle, per packed set:
       int), absent fields None, attr == the UTF-8 encoded map, _flags == expected bits;
   (b') after the observers of the decoded object ran, its fields / extended map / _flags are still those of (b);
   (c) re-encoding the decoded object gives identical bytes;
-  (d) the source object's _flags after _pack == expected bits.
+  (d) the source object's _flags after _pack == expected bits;
+  (e) entry forms only: after decoding, the unread rest of the entry stream is exactly the sentinel.
 """
 from hypothesis import strategies as st
 
@@ -41,6 +53,10 @@ RULE = (
     "object before a pack or to the decoded object before its re-encoding; "
     "each set picks presence of size/uid+gid/mode/atime+mtime/extended independently, values dense at 0, 2^31, 2^32-1, "
     "2^32, 2^63, 2^64-1, times int or float with fraction, extended maps of 0-5 bytes or str entries; "
+    "decoder entry variant per case: _from_msg(msg) | _from_msg(msg, filename) | _from_msg(msg, filename, longname) as used for directory "
+    "listings, the block embedded in an entry stream (filename, longname, block, sentinel) with a longname generated independently of the "
+    "block (the server's own ls -l line for the set | ls -l style line with numeric owner/group/size columns | with owner/group names | free "
+    "text | empty); "
     "non-trivial = at least one set has >= 2 field groups present (or a size >= 2^32, or extended entries); "
     "distinct by SHA-1 of the pair"
 )
@@ -108,7 +124,80 @@ obs_list = st.one_of(
     st.lists(st.tuples(st.sampled_from(POSITIONS), st.sampled_from(OBSERVERS)), min_size=1, max_size=4),
 )
 
-case_st = st.tuples(attr_set, attr_set, obs_list)
+# decoder entry variants: how the packed block reaches `_from_msg` (see the module docstring)
+_safe = st.text(max_size=16).filter(_safe_text)
+filenames = st.one_of(st.sampled_from(["a.txt", "dir", "with space", "x", "caf\u00e9", "1 2 3 4 5 6 7"]), _safe)
+_ls_modes = st.sampled_from(["-rw-r--r--", "drwxr-xr-x", "lrwxrwxrwx", "?---------", "-rwsr-xr-T"])
+_ls_num = st.one_of(st.sampled_from([0, 1, 1000, 65534, 0xFFFFFFFF]), st.integers(0, 0xFFFFFFFF))
+_ls_size = st.one_of(st.sampled_from([0, 1, 4096, 1 << 32, (1 << 64) - 1]), st.integers(0, 1 << 40))
+_ls_name = st.sampled_from(["root", "alice", "staff", "nobody", "u1000", "0x0"])
+longnames = st.one_of(
+    st.just(("server",)),
+    st.just(("server",)).map(lambda v: v),
+    st.tuples(st.just("ls"), _ls_modes, _ls_num, _ls_num, _ls_size),
+    st.tuples(st.just("ls"), _ls_modes, _ls_name, _ls_name, _ls_size),
+    st.tuples(st.just("ls"), _ls_modes, _ls_num, _ls_name, _ls_size),
+    st.tuples(st.just("text"), _safe),
+    st.just(("text", "")),
+)
+via_st = st.one_of(
+    st.just(None),
+    st.fixed_dictionaries({"how": st.just("filename"), "filename": filenames}),
+    st.fixed_dictionaries({"how": st.just("listing"), "filename": filenames, "ln": longnames}),
+    st.fixed_dictionaries({"how": st.just("listing"), "filename": filenames, "ln": longnames}).map(lambda v: v),
+)
+
+case_st = st.tuples(attr_set, attr_set, obs_list, via_st)
+
+SENTINEL = b"\x00\x00\x00\x03end\xa5"
+
+
+def _longname(ctx, via, s):
+    """The longname text of a listing entry for attribute set `s` (generated independently of the packed block)."""
+    from paramiko.sftp_attr import SFTPAttributes
+
+    ln = via["ln"]
+    if ln[0] == "server":
+        # the line SFTPServer sends with every CMD_NAME entry: str() of the entry's attribute object (a separate object here:
+        # what str() does to the object it formats is the observers' business, not this one's)
+        tmp = SFTPAttributes()
+        _fill(tmp, s)
+        tmp.filename = via["filename"]
+        try:
+            text = str(tmp)
+            text.encode("utf-8")
+            return text, "server-line"
+        except Exception as e:
+            ctx.count("longname:server-line-unavailable:%s" % type(e).__name__)
+            return "?---------   1 0        0               0 (unknown date) %s" % via["filename"], "server-line"
+    if ln[0] == "ls":
+        _, mode, owner, group, size = ln
+        numeric = isinstance(owner, int) and isinstance(group, int)
+        return "%s %3d %-8s %-8s %8d Jan  1 00:00 %s" % (mode, 1, owner, group, size, via["filename"]), ("ls-numeric" if numeric else "ls-names")
+    return ln[1], ("text" if ln[1] else "empty")
+
+
+def _decode(ctx, raw, via, s):
+    """Decode the packed block `raw` through the case's decoder entry variant.  Returns (object, unread rest or None)."""
+    from paramiko.message import Message
+    from paramiko.sftp_attr import SFTPAttributes
+
+    if via is None:
+        return SFTPAttributes._from_msg(Message(raw)), None
+    m = Message()
+    m.add_string(via["filename"])
+    if via["how"] == "listing":
+        m.add_string(_longname(ctx, via, s)[0])
+    m.add_bytes(raw)
+    m.add_bytes(SENTINEL)
+    msg = Message(m.asbytes())
+    filename = msg.get_text()
+    if via["how"] == "listing":
+        longname = msg.get_text()
+        back = SFTPAttributes._from_msg(msg, filename, longname)
+    else:
+        back = SFTPAttributes._from_msg(msg, filename)
+    return back, msg.get_remainder()
 
 
 def _observe(ctx, obj, kinds):
@@ -176,7 +265,7 @@ def _norm(s):
     }
 
 
-def _check_one(ctx, jcase, which, src, s, obs_src=(), obs_back=()):
+def _check_one(ctx, jcase, which, src, s, obs_src=(), obs_back=(), via=None):
     from paramiko.message import Message
     from paramiko.sftp_attr import SFTPAttributes
 
@@ -234,11 +323,15 @@ def _check_one(ctx, jcase, which, src, s, obs_src=(), obs_back=()):
         ctx.violation("wire-value", "short:%s" % _first_present(s), jcase, "set %s: %r raw=%s" % (which, e, raw.hex()[:120]))
         return False
 
-    # (b) decode with paramiko into a fresh object
+    # (b) decode with paramiko into a fresh object, through the case's decoder entry variant
+    vsuffix = "" if via is None else (":via-filename" if via["how"] == "filename" else ":via-longname")
     try:
-        back = SFTPAttributes._from_msg(Message(raw))
+        back, rest = _decode(ctx, raw, via, s)
     except Exception as e:
-        ctx.violation("unpack-raises", type(e).__name__, jcase, "set %s: %r" % (which, e))
+        ctx.violation("unpack-raises", type(e).__name__ + vsuffix, jcase, "set %s: %r" % (which, e))
+        return False
+    if rest is not None and rest != SENTINEL:
+        ctx.violation("roundtrip", "entry-stream:decoder-did-not-consume-exactly-the-block" + vsuffix, jcase, "set %s: %d-byte block, unread rest %s expected %s" % (which, len(raw), rest[:24].hex(), SENTINEL.hex()))
         return False
     checks = [
         ("size", back.st_size, s["size"]),
@@ -251,7 +344,7 @@ def _check_one(ctx, jcase, which, src, s, obs_src=(), obs_back=()):
     for name, got, want in checks:
         if got != want or (want is not None and type(got) is not int):
             kind = "absent-became-present" if want is None else ("present-became-absent" if got is None else "value")
-            ctx.violation("roundtrip", "%s:%s" % (name, kind), jcase, "set %s: %s decoded %r expected %r" % (which, name, got, want))
+            ctx.violation("roundtrip", "%s:%s%s" % (name, kind, vsuffix), jcase, "set %s: %s decoded %r expected %r%s" % (which, name, got, want, _via_text(ctx, via, s)))
             return False
     want_attr = dict((_enc(k), _enc(v)) for k, v in s["ext"])
     reencode = True
@@ -275,7 +368,7 @@ def _check_one(ctx, jcase, which, src, s, obs_src=(), obs_back=()):
             ctx.exclude("reencode-check-skipped-after-listed-extended-finding")
             reencode = False
     if back._flags != exp_flags:
-        ctx.violation("flags", "decoded-object", jcase, "set %s: _flags=%#x expected %#x" % (which, back._flags, exp_flags))
+        ctx.violation("flags", "decoded-object" + vsuffix, jcase, "set %s: _flags=%#x expected %#x%s" % (which, back._flags, exp_flags, _via_text(ctx, via, s)))
         return False
 
     # (b') looking at the decoded object must not change it
@@ -309,6 +402,14 @@ def _check_one(ctx, jcase, which, src, s, obs_src=(), obs_back=()):
     return True
 
 
+def _via_text(ctx, via, s):
+    if via is None:
+        return ""
+    if via["how"] == "filename":
+        return " [decoded with _from_msg(msg, %r)]" % via["filename"]
+    return " [decoded with _from_msg(msg, %r, longname=%r)]" % (via["filename"], _longname(ctx, via, s)[0])
+
+
 _SNAP_NAMES = ("size", "uid", "gid", "mode", "atime", "mtime", "extended", "flags")
 
 
@@ -332,9 +433,16 @@ def execute(ctx, case):
 
     a, b = _norm(case[0]), _norm(case[1])
     obs = [(str(p), str(k)) for p, k in (case[2] if len(case) > 2 else [])]
+    via = case[3] if len(case) > 3 else None
+    if via is not None:
+        via = {"how": str(via["how"]), "filename": str(via["filename"])}
+        if via["how"] == "listing":
+            via["ln"] = tuple(case[3]["ln"])
     jcase = {"a": a, "b": b}
     if obs:
         jcase["obs"] = [list(o) for o in obs]
+    if via is not None:
+        jcase["via"] = dict(via, ln=list(via["ln"])) if "ln" in via else dict(via)
     at = dict((p, [k for q, k in obs if q == p]) for p in POSITIONS)
     nontrivial = any(_groups(s) >= 2 or (s["size"] or 0) >= (1 << 32) or s["ext"] for s in (a, b))
     classes = ["groups:%d" % _groups(a)]
@@ -351,14 +459,27 @@ def execute(ctx, case):
         if at[p] and (s["size"] is None or s["ids"] is None or s["mode"] is None or s["times"] is None):
             classes.append("observed-with-absent-fields")
             break
-    ctx.case(jcase, bool(nontrivial), classes)
+    if via is None:
+        classes.append("decode:plain")
+    elif via["how"] == "filename":
+        classes.append("decode:entry-with-filename")
+    else:
+        for s in (a, b):
+            kind = _longname(ctx, via, s)[1]
+            classes.append("decode:listing-entry:longname=" + kind)
+            lacks = [n for n, k in (("size", "size"), ("uid-gid", "ids"), ("mode", "mode"), ("times", "times")) if s[k] is None]
+            for n in lacks:
+                classes.append("decode:listing-entry-lacks:" + n)
+            if kind in ("server-line", "ls-numeric") and (s["size"] is None or s["ids"] is None):
+                classes.append("decode:listing-entry-lacks-size-or-ids,longname-has-numeric-columns")
+    ctx.case(jcase, bool(nontrivial), sorted(set(classes)))
 
     src = SFTPAttributes()
     _fill(src, a)
-    if not _check_one(ctx, jcase, "a", src, a, at["a"], at["a-decoded"]):
+    if not _check_one(ctx, jcase, "a", src, a, at["a"], at["a-decoded"], via):
         return
     _fill(src, b)  # same object, packed again
-    _check_one(ctx, jcase, "b(reused)", src, b, at["b"], at["b-decoded"])
+    _check_one(ctx, jcase, "b(reused)", src, b, at["b"], at["b-decoded"], via)
 
 
 def run(ctx):
@@ -367,4 +488,4 @@ def run(ctx):
 
 
 def replay(ctx, case):
-    execute(ctx, (case["a"], case["b"], case.get("obs") or []))
+    execute(ctx, (case["a"], case["b"], case.get("obs") or [], case.get("via")))
